@@ -96,6 +96,16 @@ StepRules(st, self, types, cache) ==
               /\ reply.paused = (IF m.kind = "New" THEN script.force ELSE LRP(script, pre, pull))
               /\ (T.hasPost => (post.limit = script.limit /\ post.reqFin = script.reqFin))
         THEN {} ELSE {"C04.faithful"})
+  (* every new / restart request that arrives on the network gets an answer: a response message, or (accepted push) the transport request that carries it *)
+  \cup (IF (isReqStim /\ netPath /\ m.kind \in {"New","Restart"} /\ st.panic = "")
+           => (Has(sends, LAMBDA n : ~n.msg.isReq /\ n.msg.kind = m.kind /\ n.msg.tid = m.tid /\ n.to = s.from)
+               \/ Has(TrOf(st.tr, "open"), LAMBDA t : ~t.msg.isReq /\ t.msg.kind = m.kind /\ t.msg.tid = m.tid))
+        THEN {} ELSE {"C04.answered"})
+  (* an accepting validation update tells the initiator exactly the validator's word: accepted, its voucher result, and paused iff the request stays paused *)
+  \cup (IF (k = "UpdateValidation" /\ has /\ ~term /\ ~amInit /\ script.accepted /\ ~script.err /\ st.ret = "nil" /\ s.sendFail = << >> /\ pre.status \notin Cleanup)
+           => (reply.kind \in {"VoucherResult", "Complete"} /\ reply.accepted /\ reply.v = script.vres /\ reply.paused = stayAfter /\ reply.tid = id.tid
+               /\ (reply.kind = "Complete") = (pre.status = "Finalizing"))
+        THEN {} ELSE {"C04.faithfulUpdate"})
   \cup (IF (k = "UpdateValidation" /\ has /\ ~term /\ ~amInit /\ ~script.accepted)
            => (post.status \in {"Failing","Failed"} /\ post.msg = "rejected" /\ (s.sendFail = << >> => Len(TrOf(st.tr, "close")) >= 1) /\ ~reply.accepted)
         THEN {} ELSE {"C04.rejectedUpdateFails"})
@@ -182,6 +192,14 @@ StepRules(st, self, types, cache) ==
            => (IF m.paused THEN post.status \in {"ResponderFinalizing","ResponderFinalizingTransferFinished"}
                           ELSE (IF pre.status = "TransferFinished" THEN post.status = "Completed" ELSE post.status = "ResponderCompleted"))
         THEN {} ELSE {"C03.completeMessage"})
+  (* ... and from every other status of the initiator: an accepted Complete counts as exactly the signal the transition table gives it - the responder's   *)
+  (* final word if un-paused, the start of its finalization if paused - and a refused one fails the channel                                                 *)
+  \cup (IF (isRespStim /\ m.kind = "Complete" /\ has /\ amInit /\ ~term /\ pre.status \notin Cleanup /\ st.panic = "")
+           => (IF m.accepted
+               THEN post.status = After(pre, (IF m.v # "" THEN << <<"NewVoucherResult", m.v>> >> ELSE << >>)
+                                             \o << <<IF m.paused THEN "ResponderBeginsFinalization" ELSE "ResponderCompletes", 0>> >>).status
+               ELSE post.status \in {"Failing", "Failed"})
+        THEN {} ELSE {"C03.completeSignal"})
   (* ---------------- C01 (manager level): a responder whose channel has failed or was cancelled never reports success ---------------- *)
   \cup (IF (has /\ ~amInit /\ pre.status \in {"Failing","Failed","Cancelling","Cancelled"} /\ st.panic = "")
            => /\ ~Has(sends, LAMBDA n : n.msg.kind = "Complete" /\ n.msg.accepted)
